@@ -83,11 +83,12 @@ std::string accounting(shark::LRUCache<T>& c, std::size_t n){
 // allows", as a statement about POINTERS: remembered before the fetch, compared after it
 template<class T>
 struct RecentRows{
-	long recent[2]; T const* rp[2]; std::size_t rl[2]; bool must;
+	long recent[2]; T const* rp[2]; std::size_t rl[2]; bool must; T const* self; // self: buffer of the requested row if it is long enough already
 	RecentRows(){ forget(); }
 	void forget(){ recent[0] = recent[1] = -1; must = false; }
 	void before(shark::LRUCache<T>& c, std::size_t k, std::size_t stop){
 		must = false;
+		self = (c.lineLength(k) && c.lineLength(k) >= stop) ? c.getLinePointer(k) : 0;
 		bool third = recent[0] >= 0 && recent[1] >= 0 && (long)k != recent[0] && (long)k != recent[1] && recent[0] != recent[1];
 		if(!third) return;
 		for(int q = 0; q != 2; ++q){ rp[q] = c.getLinePointer(recent[q]); rl[q] = c.lineLength(recent[q]); }
@@ -95,6 +96,8 @@ struct RecentRows{
 	}
 	std::string after(shark::LRUCache<T>& c, std::size_t k){
 		std::string r;
+		// a row that is cached long enough is returned as the same buffer (a pointer handed out earlier stays valid)
+		if(self && c.getLinePointer(k) != self) r = "!oracle cached-row-reallocated ";
 		if(must) for(int q = 0; q != 2; ++q)
 			if(c.lineLength(recent[q]) != rl[q] || c.getLinePointer(recent[q]) != rp[q]) r = "!oracle recent-row-invalidated ";
 		if((long)k != recent[0]){ recent[1] = recent[0]; recent[0] = (long)k; }
